@@ -220,6 +220,14 @@ def unk (_c impl : List String) : Option Verdict :=
   pure { model := "rej", oracle := impl == ["rej"], nontrivial := true,
          note := if impl == ["rej"] then "" else "a document with a key the reference does not know was accepted (or Parse panicked): \"no unknown keys\" is a documented constraint" }
 
+/-- `fs d | uint32(d.Seconds())`: the model's exact float64 arithmetic against the real conversion -/
+def fs (c impl : List String) : Option Verdict := do
+  let d ← P.run P.int c
+  let got ← P.run P.int impl
+  let m := Spec.C03.floatSeconds d
+  pure { model := toString m, oracle := got == m, nontrivial := Spec.C03.floatRoundsUp d,
+         note := if got == m then "" else "uint32(d.Seconds()) differs from the model's float64 arithmetic (Spec.C03.floatSeconds): the class predicate of K-1 would be wrong" }
+
 def pSysIP : P SysIP := do
   let p ← P.prefix_
   let dep ← P.bool; let mng ← P.bool; let stab ← P.bool; let tmp ← P.bool; let tent ← P.bool; let fv ← P.bool
